@@ -26,7 +26,7 @@ Lemma len_put_at buf pos bs : pos <= len buf -> len (put_at buf pos bs) = N.max 
 Proof. intro H. rewrite put_at_inside by exact H. rewrite !len_app, len_take, len_drop. lia. Qed.
 
 (* overwriting, then continuing where that ended = overwriting with the concatenation *)
-Lemma put_at_app buf pos a b : pos <= len buf ->
+Lemma put_at_app_inside buf pos a b : pos <= len buf ->
   put_at (put_at buf pos a) (pos + len a) b = put_at buf pos (a ++ b).
 Proof.
   intro Hp.
@@ -39,6 +39,26 @@ Proof.
   rewrite <- HX at 1. rewrite take_app_exact.
   rewrite <- HX at 1. rewrite drop_add, drop_app_exact, <- drop_add.
   unfold X. rewrite <- !app_assoc, len_app. replace (pos + (len a + len b)) with (pos + len a + len b) by lia. reflexivity.
+Qed.
+
+Lemma take_ge n (bs : bytes) : len bs <= n -> take n bs = bs.
+Proof. intro H. rewrite take_firstn. apply firstn_all2. unfold len in H. lia. Qed.
+Lemma len_zeros' n : len (zeros n) = n.
+Proof. unfold zeros, len. rewrite repeat_length. lia. Qed.
+
+(* behind the end of the buffer the gap is filled with zeros, and the same law holds *)
+Lemma put_at_beyond buf pos bs : len buf <= pos -> put_at buf pos bs = buf ++ zeros (pos - len buf) ++ bs.
+Proof.
+  intro H. unfold put_at. rewrite take_ge by exact H. rewrite (drop_all buf) by lia. now rewrite app_nil_r.
+Qed.
+
+Lemma put_at_app buf pos a b : put_at (put_at buf pos a) (pos + len a) b = put_at buf pos (a ++ b).
+Proof.
+  destruct (N.le_gt_cases pos (len buf)) as [Hp|Hp]; [now apply put_at_app_inside|].
+  rewrite !(put_at_beyond buf pos) by lia.
+  set (m := buf ++ zeros (pos - len buf) ++ a).
+  assert (Hm : len m = pos + len a) by (unfold m; rewrite !len_app, len_zeros'; lia).
+  rewrite <- Hm. rewrite put_at_end. unfold m. now rewrite <- !app_assoc.
 Qed.
 
 Lemma put_at_nil buf pos : pos <= len buf -> put_at buf pos [] = buf.
